@@ -134,15 +134,15 @@ StepEnc(e) ==
                   IF silent THEN e.vr = Max(0, me.vr + 128 - rate)
                   ELSE IF e.vr > 0 THEN 64 * n1 = e.vr - me.vr + rate
                   ELSE 64 * n1 <= rate - me.vr
-             /\ (celt /\ nf = 1 /\ e.lm >= 0) => e.vr <= BucketBound(rate)
+             /\ (celt /\ nf = 1 /\ e.lm >= 0) => e.vr <= Max(BucketBound(rate), me.vr)     \* (a bitrate / frame-size drop leaves it above the new bound: it drains)
       names ==
         T(e.r <= 0, "encodeFailed")
         \cup T(nf > 0 /\ celt /\ last.pf = 1 /\ ~(e.epp = last.period /\ e.epg = GainQ15(last.qg) /\ e.ept = last.tapset), "e.codedTriple")
         \cup T(nf > 0 /\ (~celt \/ last.pf = 0) /\ ~(e.epg = 0 /\ e.epp \in MinPeriod..(MaxPeriod - 2)), "e.offTriple")
         \cup T(nf > 0 /\ (~celt \/ last.silence = 1 \/ e.cx < 5) /\ e.epp # MinPeriod, "e.disabledPeriod")
         \cup T(nf > 0 /\ celt /\ first.pf = 1 /\ first.tapset # me.td, "e.tapsetFromPreviousDecision")
-        \cup T(nf > 0 /\ ~(e.ct = 0 \/ e.ct \in (me.ct + 1)..(me.ct + nf)) , "e.ct")
-        \cup T(nf > 0 /\ last.transient = 1 /\ e.ct = 0, "e.ctTransient")
+        \cup T(nf > 0 /\ ~(e.ct \in 0..(nf - 1) \/ e.ct = me.ct + nf) , "e.ct")
+        \cup T(nf > 0 /\ celt /\ last.transient = 1 /\ e.ct = 0, "e.ctTransient")
         \cup T(nf > 0 /\ me.lcb # 0 /\ ~(e.lcb \in (me.lcb - nf)..(me.lcb + nf)), "e.lcbSlew")
         \cup T(e.lcb \notin 0..NbEBands, "e.lcbRange")
         \cup T(e.vc # (IF vbrOn THEN Min(VcSat, me.vc + nf) ELSE me.vc), "e.vc")
@@ -150,7 +150,7 @@ StepEnc(e) ==
         \cup T(e.td \notin 0..2 \/ e.sd \notin 0..3, "e.decisions")
         \cup T(nf > 0 /\ (~celt \/ e.cx < 3) /\ e.lfe = 0 /\ e.td # me.td, "e.tdKept")
         \cup T(nf > 0 /\ ~celt /\ e.lfe = 0 /\ e.sd \notin {2, IF e.cx = 0 THEN 0 ELSE IF last.transient = 1 THEN 2 ELSE 3}, "e.sdHybrid")
-        \cup T(nf > 0 /\ e.esc = 1 /\ e.ity # me.ity, "e.intensityMono")
+        \cup T(nf > 0 /\ e.esc = 1 /\ e.ity # 0, "e.intensityMono")
         \cup T(nf > 0 /\ e.ity \notin 0..NbEBands, "e.intensityRange")
         \cup T(nf = 1 /\ <<e.erh, e.erl>> # <<e.frh, e.frl>>, "e.rngIsFinalRange")
       props == T(e.tw = 1 /\ e.same # 1, "C12.resetEqualsFresh")
